@@ -1,7 +1,7 @@
 (* C05 - property theorems. *)
 From ASV Require Import Base Loc.
 From ASV.C05 Require Import Model Proofs.
-From Coq Require Import Permutation.
+From Coq Require Import Permutation Lia.
 
 (* _merge_sets returns the connected components of the "share a protocluster" graph of its input
    sets: (1) the union of all protoclusters is kept, nothing is invented; (2) the returned groups are
@@ -160,8 +160,10 @@ Theorem C05_unique_partial : forall w kind groups existing singles e s,
 Proof. exact build_go_keys_distinct. Qed.
 Print Assumptions C05_unique_partial.
 
-(* "build_candidates does not depend on the order of the groups" is FALSE: two groups of one call with the same
-   coordinates are united, and only the members of the later one get an extra single *)
+(* "build_candidates does not depend on the order of the groups" is FALSE (documented behaviour of the promotion, not
+   a finding): two groups of one call with the same coordinates are united, and only the members of the later one get
+   an extra single.  The order of the groups comes from sorted structures; since the repair of
+   supply_order_same_key_groups it no longer follows the supply order of the protoclusters (C05_order_witness) *)
 Theorem C05_build_candidates_order_independent_refuted :
   exists c1 e1 s1 c2 e2 s2,
     build_candidates None K_HYBRID [oi_g1; oi_g2] [] [] = Ok (c1, e1, s1) /\
@@ -246,128 +248,174 @@ Proof. exact Cover.create_candidates_is_formation. Qed.
 Print Assumptions C05_create_candidates_is_formation.
 
 (* ---- the meaning of NEIGHBOURING and INTERLEAVED ---- *)
-(* find_interleaved_v / find_neighbouring_v / create_candidates_v carry two switches for the two proposed
-   repairs (nw: scan all candidates instead of the bisect window; allp: compare all singles with each other);
-   with both switches off they ARE the model of the code *)
+(* find_interleaved / find_neighbouring / create_candidates transcribe the code after the repairs of the findings
+   candidate_index_window (all candidates are looked at, no bisect window) and neighbouring_singles_not_linked (all
+   singles are compared with each other).  The variants find_interleaved_v / find_neighbouring_v / create_candidates_v
+   carry one switch per repair; with both switches ON they are the model; with a switch off they are the code as it
+   was (history: class predicates used to label a violation if a defect returns, fn 21 / 22) *)
 Theorem C05_variants_are_the_model :
-  (forall clusters cands w, find_interleaved_v false clusters cands w = find_interleaved clusters cands w) /\
-  (forall singles cands, find_neighbouring_v false false singles cands = find_neighbouring singles cands) /\
-  (forall protos w, formation_body_v false false protos w = formation_body protos w) /\
-  (forall protos w, create_candidates_v false false protos w = create_candidates protos w).
+  (forall clusters cands w, find_interleaved_v true clusters cands w = find_interleaved clusters cands w) /\
+  (forall singles cands, find_neighbouring_v true true singles cands = find_neighbouring singles cands) /\
+  (forall protos w, formation_body_v true true protos w = formation_body protos w) /\
+  (forall protos w, create_candidates_v true true protos w = create_candidates protos w).
 Proof. exact Kinds.variants_are_the_model. Qed.
 Print Assumptions C05_variants_are_the_model.
 
-(* soundness of neighbouring, for the code as it is (and with either repair), no hypothesis, linear and circular:
-   every neighbouring group is built by uniting, along shared members, sets each of which joins two units
-   (candidate/candidate, candidate/protocluster, protocluster/protocluster) whose full extents overlap -
-   nothing is grouped that is not linked by a chain of overlapping extents *)
-Theorem C05_neighbouring_sound : forall nw allp singles cands g,
-  In g (find_neighbouring_v nw allp singles cands) ->
+(* soundness of neighbouring, no hypothesis, linear and circular: every neighbouring group is built by uniting, along
+   shared members, sets each of which joins two units (candidate/candidate, candidate/protocluster,
+   protocluster/protocluster) whose full extents overlap - nothing is grouped that is not linked by a chain of
+   overlapping extents *)
+Theorem C05_neighbouring_sound : forall singles cands g,
+  In g (find_neighbouring singles cands) ->
   exists G h0, (forall x, In x G -> Kinds.nb_link singles cands x) /\ built G h0 /\ forall i, inS i g <-> inS i h0.
-Proof. exact Kinds.neighbouring_sound. Qed.
+Proof. exact (Kinds.neighbouring_sound true true). Qed.
 Print Assumptions C05_neighbouring_sound.
 
-(* completeness of neighbouring WITH both proposed repairs, linear and circular: any two units whose extents
-   overlap end in one neighbouring group (with C05_merge_sets_components: the groups are the transitive groups
-   of overlapping extents).  For the code as it is this is false: C05_window_refuted, C05_neighbouring_refuted *)
-Theorem C05_neighbouring_repaired_complete_cc : forall singles cands a b,
+(* completeness of neighbouring, no hypothesis, linear and circular: any two units whose extents overlap end in one
+   neighbouring group (with C05_merge_sets_components: the groups are exactly the transitive groups of overlapping
+   extents).  Before the repairs of candidate_index_window and neighbouring_singles_not_linked this was false
+   (C05_window_neighbouring_witness, C05_neighbouring_singles_witness) *)
+Theorem C05_neighbouring_complete_cc : forall singles cands a b,
   In a cands -> In b cands -> a <> b -> cmem a <> [] -> overlap (cloc a) (cloc b) = true ->
-  exists g, In g (find_neighbouring_v true true singles cands) /\ subsetP (cmem a) g /\ subsetP (cmem b) g.
+  exists g, In g (find_neighbouring singles cands) /\ subsetP (cmem a) g /\ subsetP (cmem b) g.
 Proof. exact Kinds.neighbouring_repaired_complete_cc. Qed.
-Print Assumptions C05_neighbouring_repaired_complete_cc.
-Theorem C05_neighbouring_repaired_complete_cs : forall singles cands c s,
+Print Assumptions C05_neighbouring_complete_cc.
+Theorem C05_neighbouring_complete_cs : forall singles cands c s,
   In c cands -> In s singles -> overlap (ploc s) (cloc c) = true ->
-  exists g, In g (find_neighbouring_v true true singles cands) /\ subsetP (cmem c) g /\ inS (pid s) g.
+  exists g, In g (find_neighbouring singles cands) /\ subsetP (cmem c) g /\ inS (pid s) g.
 Proof. exact Kinds.neighbouring_repaired_complete_cs. Qed.
-Print Assumptions C05_neighbouring_repaired_complete_cs.
-Theorem C05_neighbouring_repaired_complete_ss : forall singles cands s t,
+Print Assumptions C05_neighbouring_complete_cs.
+Theorem C05_neighbouring_complete_ss : forall singles cands s t,
   In s singles -> In t singles -> s <> t -> overlap (ploc s) (ploc t) = true ->
-  exists g, In g (find_neighbouring_v true true singles cands) /\ inS (pid s) g /\ inS (pid t) g.
+  exists g, In g (find_neighbouring singles cands) /\ inS (pid s) g /\ inS (pid t) g.
 Proof. exact Kinds.neighbouring_repaired_complete_ss. Qed.
-Print Assumptions C05_neighbouring_repaired_complete_ss.
+Print Assumptions C05_neighbouring_complete_ss.
 
-(* interleaved on linear records (no wrap point): soundness for the code as it is - every interleaved group is
-   built from sets each joining two units whose CORES overlap (a candidate's core = connect_locations of its
-   members' cores) *)
-Theorem C05_interleaved_sound_linear : forall nw clusters cands groups un,
-  find_interleaved_v nw clusters cands None = Ok (groups, un) ->
+(* interleaved on linear records (no wrap point): soundness - every interleaved group is built from sets each joining
+   two units whose CORES overlap (a candidate's core = connect_locations of its members' cores) *)
+Theorem C05_interleaved_sound_linear : forall clusters cands groups un,
+  find_interleaved clusters cands None = Ok (groups, un) ->
   forall g, In g groups ->
   exists G h0, (forall x, In x G -> Kinds.il_link None clusters cands x) /\ built G h0 /\ forall i, inS i g <-> inS i h0.
-Proof. exact Kinds.interleaved_sound. Qed.
+Proof. exact (Kinds.interleaved_sound true). Qed.
 Print Assumptions C05_interleaved_sound_linear.
 
-(* completeness, linear: candidate/candidate and protocluster/protocluster pairs with overlapping cores always
-   end in one interleaved group, also in the code as it is (the early break of the core-sorted inner loop is
-   harmless: proved from the sortedness of sort_by) ... *)
-Theorem C05_interleaved_complete_cc_linear : forall nw clusters cands groups un a b ka kb,
-  find_interleaved_v nw clusters cands None = Ok (groups, un) ->
+(* completeness, linear: candidate/candidate, protocluster/protocluster and candidate/protocluster pairs with
+   overlapping cores always end in one interleaved group (the early break of the core-sorted inner loop is harmless:
+   proved from the sortedness of sort_by; the candidate/protocluster case holds since the repair of
+   candidate_index_window, C05_window_witness) *)
+Theorem C05_interleaved_complete_cc_linear : forall clusters cands groups un a b ka kb,
+  find_interleaved clusters cands None = Ok (groups, un) ->
   In a cands -> In b cands -> a <> b -> ccore None a = Ok ka -> ccore None b = Ok kb -> overlap ka kb = true ->
   exists g, In g groups /\ subsetP (cmem a) g /\ subsetP (cmem b) g.
-Proof. exact Kinds.interleaved_complete_cc. Qed.
+Proof. exact (Kinds.interleaved_complete_cc true). Qed.
 Print Assumptions C05_interleaved_complete_cc_linear.
-Theorem C05_interleaved_complete_pp_linear : forall nw clusters cands groups un x y,
-  find_interleaved_v nw clusters cands None = Ok (groups, un) ->
+Theorem C05_interleaved_complete_pp_linear : forall clusters cands groups un x y,
+  find_interleaved clusters cands None = Ok (groups, un) ->
   In x clusters -> In y clusters -> x <> y ->
   (forall p, In p (pcore x) -> ps p < pe p) -> (forall p, In p (pcore y) -> ps p < pe p) ->
   overlap (pcore x) (pcore y) = true ->
   exists g, In g groups /\ inS (pid x) g /\ inS (pid y) g.
-Proof. exact Kinds.interleaved_complete_pp. Qed.
+Proof. exact (Kinds.interleaved_complete_pp true). Qed.
 Print Assumptions C05_interleaved_complete_pp_linear.
-(* ... candidate/protocluster pairs only with the window repair (C05_window_refuted for the code as it is) *)
-Theorem C05_interleaved_repaired_complete_cp_linear : forall clusters cands groups un c k cl,
-  find_interleaved_v true clusters cands None = Ok (groups, un) ->
+Theorem C05_interleaved_complete_cp_linear : forall clusters cands groups un c k cl,
+  find_interleaved clusters cands None = Ok (groups, un) ->
   In c cands -> ccore None c = Ok k -> In cl clusters -> overlap k (pcore cl) = true ->
   exists g, In g groups /\ subsetP (cmem c) g /\ inS (pid cl) g.
 Proof. exact Kinds.interleaved_repaired_complete_cp. Qed.
-Print Assumptions C05_interleaved_repaired_complete_cp_linear.
+Print Assumptions C05_interleaved_complete_cp_linear.
 
-(* C05_window decided: the bisect window DOES miss overlapping candidates on linear records (design-time row 33,
-   finding candidate_index_window).  Interleaved: the cores of protoclusters 0 and 6 overlap, no INTERLEAVED or
-   HYBRID candidate of the result holds both; with the window repair an INTERLEAVED candidate does; the decidable
-   kind clauses fail on the result and hold on the repaired one *)
-Theorem C05_window_refuted :
-  exists out rep,
-    create_candidates wi_protos None = Ok out /\ create_candidates_v true false wi_protos None = Ok rep /\
+(* soundness also holds for the historical variants (any setting of the switches) *)
+Theorem C05_sound_all_variants :
+  (forall nw allp singles cands g, In g (find_neighbouring_v nw allp singles cands) ->
+     exists G h0, (forall x, In x G -> Kinds.nb_link singles cands x) /\ built G h0 /\ forall i, inS i g <-> inS i h0) /\
+  (forall nw clusters cands groups un, find_interleaved_v nw clusters cands None = Ok (groups, un) ->
+     forall g, In g groups ->
+     exists G h0, (forall x, In x G -> Kinds.il_link None clusters cands x) /\ built G h0 /\ forall i, inS i g <-> inS i h0).
+Proof. split; [exact Kinds.neighbouring_sound|exact Kinds.interleaved_sound]. Qed.
+Print Assumptions C05_sound_all_variants.
+
+(* regression witnesses of the repaired finding candidate_index_window (design-time row 33) on linear records.
+   Interleaved: the cores of protoclusters 0 and 6 overlap and an INTERLEAVED candidate of the result holds both, every
+   clause about the meaning of the kinds holds; `old` is the result of the historical variant with the bisect window,
+   in which no INTERLEAVED or HYBRID candidate holds both and the clauses fail *)
+Theorem C05_window_witness :
+  exists out old,
+    create_candidates wi_protos None = Ok out /\ create_candidates_v false true wi_protos None = Ok old /\
     rel_I (kw_p 0 0 1000 100 900 [0]) (kw_p 6 880 1100 890 950 []) = true /\
-    together [K_INTERLEAVED; K_HYBRID] (kw_p 0 0 1000 100 900 [0]) (kw_p 6 880 1100 890 950 []) out = false /\
-    together [K_INTERLEAVED] (kw_p 0 0 1000 100 900 [0]) (kw_p 6 880 1100 890 950 []) rep = true /\
-    kinds_ok wi_protos out = false /\ kinds_ok wi_protos rep = true.
+    view out = [(K_INTERLEAVED, [0; 1; 2; 3; 4; 5; 6]); (K_HYBRID, [0; 1]); (K_HYBRID, [2; 3]); (K_HYBRID, [4; 5])] /\
+    together [K_INTERLEAVED] (kw_p 0 0 1000 100 900 [0]) (kw_p 6 880 1100 890 950 []) out = true /\
+    kinds_ok wi_protos out = true /\
+    together [K_INTERLEAVED; K_HYBRID] (kw_p 0 0 1000 100 900 [0]) (kw_p 6 880 1100 890 950 []) old = false /\
+    kinds_ok wi_protos old = false.
 Proof. exact window_interleaved_witness. Qed.
-Print Assumptions C05_window_refuted.
-(* the same for neighbouring: protocluster 6 lies inside the extent of hybrid {2,3}, no candidate holds 6 and 2 *)
-Theorem C05_window_neighbouring_refuted :
-  exists out rep,
-    create_candidates wn_protos None = Ok out /\ create_candidates_v true false wn_protos None = Ok rep /\
+Print Assumptions C05_window_witness.
+(* the same for neighbouring: protocluster 6 lies inside the extent of hybrid {2,3}; a candidate now holds 6 and 2 *)
+Theorem C05_window_neighbouring_witness :
+  exists out old,
+    create_candidates wn_protos None = Ok out /\ create_candidates_v false true wn_protos None = Ok old /\
     rel_N (kw_p 2 6 100 30 32 [1]) (kw_p 6 50 60 52 55 []) = true /\
-    together all_kinds (kw_p 2 6 100 30 32 [1]) (kw_p 6 50 60 52 55 []) out = false /\
-    together all_kinds (kw_p 2 6 100 30 32 [1]) (kw_p 6 50 60 52 55 []) rep = true /\
-    kinds_ok wn_protos out = false /\ kinds_ok wn_protos rep = true.
+    view out = [(K_HYBRID, [0; 1]); (K_HYBRID, [2; 3; 4; 5; 6]); (K_HYBRID, [4; 5]); (K_SINGLE, [6])] /\
+    together all_kinds (kw_p 2 6 100 30 32 [1]) (kw_p 6 50 60 52 55 []) out = true /\
+    kinds_ok wn_protos out = true /\
+    together all_kinds (kw_p 2 6 100 30 32 [1]) (kw_p 6 50 60 52 55 []) old = false /\
+    kinds_ok wn_protos old = false.
 Proof. exact window_neighbouring_witness. Qed.
-Print Assumptions C05_window_neighbouring_refuted.
-(* "neighbouring candidates are the transitive groups of overlapping extents" is false for the code as it is even
-   without the window (finding neighbouring_singles_not_linked): 4 and 5 overlap, each also overlaps a hybrid, and
-   they end in two different neighbouring candidates {0,1,4} and {5,2,3} *)
-Theorem C05_neighbouring_refuted :
-  exists out rep,
-    create_candidates ws_protos None = Ok out /\ create_candidates_v false true ws_protos None = Ok rep /\
+Print Assumptions C05_window_neighbouring_witness.
+(* regression witness of the repaired finding neighbouring_singles_not_linked: 4 and 5 overlap, each also overlaps a
+   hybrid; they are now in one NEIGHBOURING candidate with both hybrids (historical variant: two neighbouring
+   candidates {0,1,4} and {5,2,3} that overlap each other) *)
+Theorem C05_neighbouring_singles_witness :
+  exists out old,
+    create_candidates ws_protos None = Ok out /\ create_candidates_v true false ws_protos None = Ok old /\
     rel_N (kw_p 4 5 30 12 14 []) (kw_p 5 25 50 31 35 []) = true /\
-    together all_kinds (kw_p 4 5 30 12 14 []) (kw_p 5 25 50 31 35 []) out = false /\
-    together [K_NEIGHBOURING] (kw_p 4 5 30 12 14 []) (kw_p 5 25 50 31 35 []) rep = true /\
-    map (fun c => (ckind c, map pid (cmem c))) (filter (fun c => ckind c =? K_NEIGHBOURING) out) = [(K_NEIGHBOURING, [0; 1; 4]); (K_NEIGHBOURING, [5; 2; 3])] /\
-    kinds_ok ws_protos out = false /\ kinds_ok ws_protos rep = true.
-Proof. exact singles_not_linked_witness. Qed.
-Print Assumptions C05_neighbouring_refuted.
+    view out = [(K_NEIGHBOURING, [0; 1; 4; 5; 2; 3]); (K_HYBRID, [0; 1]); (K_SINGLE, [4]); (K_SINGLE, [5]); (K_HYBRID, [2; 3])] /\
+    together [K_NEIGHBOURING] (kw_p 4 5 30 12 14 []) (kw_p 5 25 50 31 35 []) out = true /\
+    kinds_ok ws_protos out = true /\
+    view (filter (fun c => ckind c =? K_NEIGHBOURING) old) = [(K_NEIGHBOURING, [0; 1; 4]); (K_NEIGHBOURING, [5; 2; 3])] /\
+    kinds_ok ws_protos old = false.
+Proof. exact singles_linked_witness. Qed.
+Print Assumptions C05_neighbouring_singles_witness.
 
 (* ---- order independence, end to end ---- *)
-(* the result does not depend on the order in which the protoclusters are supplied whenever CDSCollection.__lt__
-   has no ties among them and is transitive on them (then sorted() has one possible result) ... *)
+(* create_candidates_from_protoclusters starts with `_ordered(protoclusters)` (since the repair of finding
+   supply_order_same_key_groups): a sort by (product, core start, core end) followed by the stable sort by
+   CDSCollection.__lt__.  The result does not depend on the order in which the protoclusters are supplied ...
+   (1) on ANY record (linear, circular, origin-crossing, any strands), no hypothesis on __lt__, whenever the
+       (product, core start, core end) triples of the protoclusters are pairwise different *)
+Theorem C05_order_independent_prekeys : forall protos protos' w,
+  Permutation protos protos' ->
+  (forall a b, In a protos -> In b protos -> Order.pre_key a = Order.pre_key b -> a = b) ->
+  create_candidates protos w = create_candidates protos' w.
+Proof. exact Order.create_candidates_order_independent_prekeys. Qed.
+Print Assumptions C05_order_independent_prekeys.
+(* (2) whenever __lt__ is a strict weak order on the supplied protoclusters (transitive, incomparability transitive;
+       it always is irreflexive) and no two different protoclusters tie under __lt__ AND share
+       (product, core start, core end) *)
+Theorem C05_order_independent : forall protos protos' w,
+  Permutation protos protos' -> Order.lt_trans protos -> Order.lt_weak protos ->
+  (forall a b, In a protos -> In b protos -> lt_pp a b = false -> lt_pp b a = false ->
+               Order.pre_key a = Order.pre_key b -> a = b) ->
+  create_candidates protos w = create_candidates protos' w.
+Proof. exact Order.create_candidates_order_independent_keys. Qed.
+Print Assumptions C05_order_independent.
+(* (3) in particular on linear records with single-part protoclusters (any products, cores, defining genes, strands):
+       pairwise different (coordinates, product, core start, core end) *)
+Theorem C05_order_independent_keys_linear : forall protos protos' w,
+  Permutation protos protos' ->
+  (forall p, In p protos -> Order.single_lin p) ->
+  (forall a b qa qb, In a protos -> In b protos -> ploc a = [qa] -> ploc b = [qb] ->
+                     ps qa = ps qb -> pe qa = pe qb -> Order.pre_key a = Order.pre_key b -> a = b) ->
+  create_candidates protos w = create_candidates protos' w.
+Proof. exact Order.create_candidates_order_independent_keys_linear. Qed.
+Print Assumptions C05_order_independent_keys_linear.
+(* (4) the earlier guards, still sufficient: no ties under __lt__ at all and __lt__ transitive; pairwise different
+       coordinates on linear records *)
 Theorem C05_order_independent_partial : forall protos protos' w,
   Permutation protos protos' -> Order.no_tie protos -> Order.lt_trans protos ->
   create_candidates protos w = create_candidates protos' w.
 Proof. exact Order.create_candidates_order_independent. Qed.
 Print Assumptions C05_order_independent_partial.
-(* ... in particular on linear records with single-part protoclusters of pairwise different coordinates (any
-   products, cores, defining genes, strands) *)
 Theorem C05_order_independent_linear : forall protos protos' w,
   Permutation protos protos' ->
   (forall p, In p protos -> Order.single_lin p) ->
@@ -376,15 +424,32 @@ Theorem C05_order_independent_linear : forall protos protos' w,
   create_candidates protos w = create_candidates protos' w.
 Proof. exact Order.create_candidates_order_independent_linear. Qed.
 Print Assumptions C05_order_independent_linear.
-(* "no ties" alone is not enough in the model: with an (artificial) location that repeats a part __lt__ is cyclic
-   and two supply orders give 4 and 3 candidates *)
-Theorem C05_order_independent_no_tie_alone_refuted :
+(* NOT proved (and not claimed): two different protoclusters with the same (product, core start, core end) that also
+   tie under __lt__ (on linear records: the same coordinates) - `_ordered` keeps those in supply order (they differ
+   only in defining genes / inner core parts / identity; equal products are C17's subject); and inputs with equal
+   triples on which __lt__ is not a strict weak order (multi-part locations on circular records).
+   With an (artificial) location that repeats a part __lt__ is cyclic, sorted() alone then depends on the supply order
+   although nothing ties; before the repair two supply orders gave 4 and 3 candidates, now the pre-sort decides *)
+Theorem C05_order_cyclic_lt_witness :
   Order.no_tie Order.ce_L1 /\ Permutation Order.ce_L1 Order.ce_L2 /\
-  (exists o1 o2, create_candidates Order.ce_L1 None = Ok o1 /\ create_candidates Order.ce_L2 None = Ok o2 /\
-                 length o1 = 4%nat /\ length o2 = 3%nat) /\
-  create_candidates Order.ce_L1 None <> create_candidates Order.ce_L2 None.
-Proof. exact Order.no_tie_alone_not_enough_end_to_end. Qed.
-Print Assumptions C05_order_independent_no_tie_alone_refuted.
+  sort_by lt_pp Order.ce_L1 <> sort_by lt_pp Order.ce_L2 /\
+  create_candidates Order.ce_L1 None = create_candidates Order.ce_L2 None /\
+  exists o, create_candidates Order.ce_L1 None = Ok o.
+Proof. exact Order.cyclic_lt_orders_now_agree. Qed.
+Print Assumptions C05_order_cyclic_lt_witness.
+(* regression witness of the repaired finding supply_order_same_key_groups, linear record, pairwise distinct
+   (coordinates, product, core) triples: protoclusters 2 and 3 share coordinates and core and differ in product;
+   sorted() keeps them in supply order (third clause), which used to decide which of two same-coordinate hybrid groups
+   build_candidates sees last (only the later group's members get an extra single: SINGLE 1 or SINGLE 0).  Now both
+   supply orders give the same candidates *)
+Theorem C05_order_witness :
+  Permutation [od_0; od_1; od_2; od_3] [od_0; od_1; od_3; od_2] /\
+  sort_by lt_pp [od_0; od_1; od_2; od_3] <> sort_by lt_pp [od_0; od_1; od_3; od_2] /\
+  create_candidates [od_0; od_1; od_2; od_3] None = create_candidates [od_0; od_1; od_3; od_2] None /\
+  exists o, create_candidates [od_0; od_1; od_2; od_3] None = Ok o /\
+            view o = [(K_HYBRID, [3; 2; 1; 0]); (K_SINGLE, [0])].
+Proof. exact order_witness_repaired. Qed.
+Print Assumptions C05_order_witness.
 
 (* ---- C05_unique in full, linear records ---- *)
 (* no two candidates (at different positions of the returned list) have the same location and the same members:
@@ -409,19 +474,19 @@ Proof.
   destruct (formation_body ex_protos None) as [c|k] eqn:E; vm_compute in E; [|discriminate E].
   inversion E. eexists. split; [reflexivity|reflexivity].
 Qed.
-(* neighbouring/interleaved statements: the witness inputs above run through both variants (see C05_window_refuted) *)
 
-(* "the outcome does not depend on the supply order" is FALSE for the code as it is, already on a linear record with
-   pairwise distinct (coordinates, product, core) TRIPLES: protoclusters 2 and 3 share coordinates and core and differ
-   in product; sorted() keeps them in supply order, that order decides which of two same-coordinate hybrid groups
-   build_candidates sees last, and only the later group's members get an extra single (finding
-   supply_order_same_key_groups; C05_build_candidates_order_independent_refuted is the function-level mechanism).
-   The positive statements above (C05_order_independent_partial / _linear) need pairwise different coordinates *)
-Theorem C05_order_independent_refuted :
-  Permutation [od_0; od_1; od_2; od_3] [od_0; od_1; od_3; od_2] /\
-  exists o1 o2, create_candidates [od_0; od_1; od_2; od_3] None = Ok o1 /\
-                create_candidates [od_0; od_1; od_3; od_2] None = Ok o2 /\
-    map (fun c => (ckind c, map pid (cmem c))) o1 = [(K_HYBRID, [3; 2; 1; 0]); (K_SINGLE, [1])] /\
-    map (fun c => (ckind c, map pid (cmem c))) o2 = [(K_HYBRID, [3; 2; 1; 0]); (K_SINGLE, [0])].
-Proof. exact order_dependent_witness. Qed.
-Print Assumptions C05_order_independent_refuted.
+(* neighbouring/interleaved statements: the witness inputs above run through the model and the historical variants
+   (C05_window_witness etc.); C05_order_independent_keys_linear: its guard holds on the four protoclusters of
+   C05_order_witness (same coordinates for 2 and 3, different products) *)
+Example C05_ex_order_keys_guard :
+  (forall p, In p [od_0; od_1; od_2; od_3] -> Order.single_lin p) /\
+  (forall a b qa qb, In a [od_0; od_1; od_2; od_3] -> In b [od_0; od_1; od_2; od_3] -> ploc a = [qa] -> ploc b = [qb] ->
+                     ps qa = ps qb -> pe qa = pe qb -> Order.pre_key a = Order.pre_key b -> a = b).
+Proof.
+  split.
+  - intros p Ip. cbn [In] in Ip.
+    destruct Ip as [Ip|[Ip|[Ip|[Ip|[]]]]]; subst p; eexists; (split; [reflexivity|cbn; lia]).
+  - intros a b qa qb Ia Ib Ha Hb Hs He Hk. cbn [In] in Ia, Ib.
+    destruct Ia as [Ia|[Ia|[Ia|[Ia|[]]]]]; destruct Ib as [Ib|[Ib|[Ib|[Ib|[]]]]]; subst a b;
+      try reflexivity; vm_compute in Hk; discriminate Hk.
+Qed.
